@@ -105,3 +105,28 @@ Theorem C11_geometry_table : gen_geometry = expected_geometry.
 Proof. reflexivity. Qed.
 Theorem C11_geometry_complete : geometry_complete gen_geometry = true.
 Proof. vm_compute. reflexivity. Qed.
+
+(* ---- the output length of QConv2DTranspose (deconv_output_length, regenerated on every run: coq/gen/DeconvGen.v) ---- *)
+From Coq Require Import ZArith Lia.
+From QVGen Require Import DeconvGen.
+Open Scope Z_scope.
+Definition k_eff (k d : Z) : Z := k + (k - 1) * (d - 1).
+Theorem C11_deconv_translation_ok : deconv_translation_ok = true.
+Proof. reflexivity. Qed.
+(* the stock Keras formulas, for every length, kernel, stride and dilation *)
+Theorem C11_deconv_length_is_the_keras_formula : forall n k s d op,
+  gen_deconv_length PValid None n k s d = n * s + Z.max (k_eff k d - s) 0 /\
+  gen_deconv_length PSame None n k s d = n * s /\
+  gen_deconv_length PFull None n k s d = n * s - (s + k_eff k d - 2) /\
+  gen_deconv_length PValid (Some op) n k s d = (n - 1) * s + k_eff k d + op /\
+  gen_deconv_length PSame (Some op) n k s d = (n - 1) * s + k_eff k d - 2 * (k_eff k d / 2) + op /\
+  gen_deconv_length PFull (Some op) n k s d = (n - 1) * s + k_eff k d - 2 * (k_eff k d - 1) + op.
+Proof. intros. unfold gen_deconv_length, k_eff. repeat split; lia. Qed.
+(* valid padding: the output holds every position an input element writes to ((n - 1) * s + k_eff of them) AND a full stride slot
+   for every input element (n * s): with a stride larger than the kernel the second bound is the larger one *)
+Theorem C11_deconv_valid_length_covers_writes_and_stride_slots : forall n k s d,
+  gen_deconv_length PValid None n k s d = Z.max ((n - 1) * s + k_eff k d) (n * s).
+Proof. intros. unfold gen_deconv_length, k_eff. lia. Qed.
+Theorem C11_deconv_valid_stride_larger_than_kernel : forall n k s d, k_eff k d <= s ->
+  gen_deconv_length PValid None n k s d = n * s.
+Proof. intros. unfold gen_deconv_length, k_eff in *. lia. Qed.
